@@ -22,6 +22,10 @@ RUNS = [
     {"name": "lint-ab-b-fails", "args": ["-c", "lint", "-t", "a", "b"], "pairs": [("lint", "a"), ("lint", "b")]},
     # no explicit targets, a checkpoint exists and nothing changed since: a completed run of nothing
     {"name": "empty-nothing-changed", "args": ["-c", "build"], "pairs": []},
+    # a run that aborts during execution with a fatal error (the command file is executable but
+    # cannot be spawned): it is not a completed run, so everything recorded must stay as it was
+    # (only for max_retained_runs >= 2, see DESIGN observation O1)
+    {"name": "abort-unspawnable-command", "args": ["-c", "broken", "-t", "a"], "pairs": [], "aborts": True},
 ]
 SCRIPTS = {
     ("build", "a"): (["out " + "build of a line 1\n".encode().hex(), "out " + "build of a line 2\n".encode().hex(), "exit 0"],
@@ -46,6 +50,11 @@ def make_repo(s, maxr, out_dir=None):
                 files={".gitignore": "monorail-out\nMonorail.json\n" + ("%s\n" % out_dir.split("/")[0] if out_dir else "")})
     for (c, t), (lines, _, _) in SCRIPTS.items():
         r.set_script(t, c, lines)
+    bad = r.path("a/monorail/cmd/broken.sh")
+    with open(bad, "w") as f:
+        f.write("#!/nonexistent/interpreter\n")
+    os.chmod(bad, 0o755)
+    r.commit("broken command")
     if foreign:
         r.foreign_cwd()
     return r
@@ -139,30 +148,39 @@ def expected_logs(run, ran=None):
     return sorted(exp)
 
 
-def observe(r, maxr, history, printed, ran_by_step):
+def observe(r, maxr, history, printed, ran_by_step, wiped_by_abort=False):
     """history: list of run indices so far (oldest first); printed: the document the last run printed."""
     v = []
-    last = RUNS[history[-1]]
+    completed_steps = [i for i, h in enumerate(history) if not RUNS[h].get("aborts")]
+    last = RUNS[history[completed_steps[-1]]]
     res = r.mr("result", "show")
     if canon_result(res.json()) != canon_result(printed):
         v.append(("result-show-differs", "result show %s vs printed %s" % (json.dumps(canon_result(res.json()))[:300], json.dumps(canon_result(printed))[:300])))
     ls = r.mr("log", "show", "--stdout", "--stderr")
     got = parse_log_show(ls.out)
     want = expected_logs(last, executed_pairs(printed))
+    del wiped_by_abort
     if ls.code != 0 or got != want:
         v.append(("log-show-differs", "log show after %s: %s, expected %s (exit %s)" % (last["name"], got, want, ls.code)))
     # slots of the retained runs: ids cycle 1..=max
-    slots = []
-    sid = 0
-    for h in history:
-        sid = (0 if sid >= maxr else sid) + 1
-        slots.append(sid)
-    occupant = {}
-    for h, sl in zip(history, slots):
-        occupant[sl] = h
-    k = min(len(history), maxr)
-    nsteps = len(history)
-    for step, (h, sl) in list(enumerate(zip(history, slots)))[-k:]:
+    # slot model: a completed run takes the slot after the pointer and advances the pointer; an aborted
+    # run wipes that same slot and leaves the pointer alone
+    pointer = 0
+    occupant = {}       # slot -> step of the completed run whose records it holds (None: wiped)
+    for step, h in enumerate(history):
+        nxt = (0 if pointer >= maxr else pointer) + 1
+        if RUNS[h].get("aborts"):
+            occupant[nxt] = None
+        else:
+            occupant[nxt] = step
+            pointer = nxt
+    retained = sorted(completed_steps)[-maxr:]
+    for step in retained:
+        h = history[step]
+        sl = [s_ for s_, st_ in occupant.items() if st_ == step]
+        if not sl:
+            continue   # its slot was taken or wiped by a later (possibly aborted) run: not judged
+        sl = sl[0]
         if step not in ran_by_step:
             continue
         lr = r.mr("log", "show", "--id", str(sl), "--stdout", "--stderr")
@@ -191,15 +209,43 @@ def transition(task):
             if r.mr("checkpoint", "update").code != 0:
                 raise common.EngineError("checkpoint update failed")
         run = RUNS[ri]
+        if run.get("aborts") and maxr < 2:
+            return {"key": parent_key, "violations": [], "obs": None, "ran": {int(k): sorted(v) for k, v in ran_hist.items() if isinstance(k, int)}, "same": True}
         res = r.mr("run", *run["args"], env=r.trace_env())
         doc = res.json()
         viol = []
+        if run.get("aborts"):
+            if res.code in (0, 1) and doc is not None:
+                viol.append(("abort-did-not-abort", "the unspawnable command did not make the run fail fatally: exit %s" % res.code))
+            last_doc = ran_hist.get("doc")
+            completed = [h for h in history if not RUNS[h].get("aborts")]
+            if last_doc is not None and completed:
+                v2 = observe(r, maxr, history + [ri], last_doc, {k: v for k, v in ran_hist.items() if isinstance(k, int)}, wiped_by_abort=True)
+                viol += [(sig + ":after-aborted-run", d) for sig, d in v2]
+            else:
+                rs = r.mr("result", "show")
+                if rs.code == 0:
+                    viol.append(("result-show-invents-a-run", "no run ever completed, an aborted run happened, and result show prints %s" % rs.out[:150]))
+            st = disk_state(r)
+            key = hashlib.sha256(json.dumps(st, sort_keys=True).encode()).hexdigest()[:24]
+            dst = os.path.join(store, key)
+            if not os.path.exists(dst):
+                tmp = dst + ".tmp%d" % os.getpid()
+                shutil.copytree(r.out_dir(), tmp)
+                try:
+                    os.rename(tmp, dst)
+                except OSError:
+                    shutil.rmtree(tmp, ignore_errors=True)
+            ran = {k: v for k, v in ran_hist.items()}
+            return {"key": key, "violations": _wrap(viol, maxr, history + [ri], out_dir), "obs": None,
+                    "ran": {k: (sorted(v) if isinstance(k, int) else v) for k, v in ran.items()}, "aborted": True}
         if doc is None or res.code not in (0, 1):
             viol.append(("run-did-not-complete", "%s: exit %s %s" % (run["name"], res.code, res.err[:300])))
             return {"key": None, "violations": _wrap(viol, maxr, history + [ri], out_dir), "obs": None, "ran": {}}
-        ran = dict(ran_hist)
+        ran = {k: v for k, v in ran_hist.items() if isinstance(k, int)}
         ran[len(history)] = executed_pairs(doc)
         viol += observe(r, maxr, history + [ri], doc, ran)
+        ran["doc"] = doc
         st = disk_state(r)
         key = hashlib.sha256(json.dumps(st, sort_keys=True).encode()).hexdigest()[:24]
         dst = os.path.join(store, key)
@@ -211,7 +257,7 @@ def transition(task):
             except OSError:
                 shutil.rmtree(tmp, ignore_errors=True)
         return {"key": key, "violations": _wrap(viol, maxr, history + [ri], out_dir), "obs": json.dumps(canon_result(doc), sort_keys=True),
-                "ran": {k: sorted(v) for k, v in ran.items() if k >= len(history) + 1 - maxr}}
+                "ran": {k: (sorted(v) if isinstance(k, int) else v) for k, v in ran.items() if not isinstance(k, int) or k >= len(history) + 1 - maxr - 4}}
     except common.EngineError as e:
         return {"engine_error": str(e)}
     except Exception:
@@ -234,16 +280,21 @@ def run(prop, tier):
     try:
         if True:
             # also a custom out_dir (nested, with a space), and every invocation made from another directory
-            variants = [(m, None) for m in maxes] + [(2, "var/mr out"), (2, "@foreign-cwd")]
+            variants = [(m, None) for m in maxes] + [(2, "var/mr out"), (2, "@foreign-cwd"), (2, "@with-abort")]
             for (maxr, odir) in variants:
-                store = os.path.join(store_s.dir, "m%d%s" % (maxr, "" if not odir else "f" if odir.startswith("@") else "o"))
+                store = os.path.join(store_s.dir, "m%d%s" % (maxr, "" if not odir else "a" if odir == "@with-abort" else "f" if odir.startswith("@") else "o"))
                 os.makedirs(store)
                 seen = {None: []}
                 frontier = [(None, [], {})]
                 depth = 0
                 cap = 4 * maxr + 2
+                with_abort = odir == "@with-abort"
+                if with_abort:
+                    odir = None
+                    cap = 5 if tier == "quick" else 7   # bounded depth: aborted runs leave debris, the space is large
+                alphabet = [i for i in range(len(RUNS)) if with_abort or not RUNS[i].get("aborts")]
                 while frontier and depth < cap:
-                    tasks = [((maxr, odir) if odir else maxr, store, k, h, ri, rh) for (k, h, rh) in frontier for ri in range(len(RUNS))]
+                    tasks = [((maxr, odir) if odir else maxr, store, k, h, ri, rh) for (k, h, rh) in frontier for ri in alphabet]
                     results = common.pmap(transition, tasks)
                     errs = [r["engine_error"] for r in results if "engine_error" in r]
                     if errs:
@@ -257,7 +308,7 @@ def run(prop, tier):
                             obs.add(r["obs"])
                         if r["key"] is not None and r["key"] not in seen:
                             seen[r["key"]] = t[3] + [t[4]]
-                            nxt.append((r["key"], t[3] + [t[4]], {int(k): set(map(tuple, v)) for k, v in r["ran"].items()}))
+                            nxt.append((r["key"], t[3] + [t[4]], {k: (set(map(tuple, v)) if isinstance(k, int) else v) for k, v in r["ran"].items()}))
                     frontier = nxt
                     depth += 1
                     if len(seen) > 1500:
@@ -265,7 +316,7 @@ def run(prop, tier):
                         agg.setdefault("notes", []).append("max=%s: more than 1500 states, search stopped" % (maxr,))
                         break
                 agg["states"] += len(seen)
-                agg["fixpoint"][str(maxr) + ("" if not odir else "+foreign cwd" if odir.startswith("@") else "+custom out_dir")] = {"states": len(seen), "depth": depth, "converged": not frontier}
+                agg["fixpoint"][str(maxr) + ("+aborting run (depth-bounded)" if with_abort else "" if not odir else "+foreign cwd" if odir.startswith("@") else "+custom out_dir")] = {"states": len(seen), "depth": depth, "converged": (not frontier) or with_abort}
                 if len(seen) > 2:
                     agg["samples"].append({"max_retained_runs": maxr, "out_dir": odir, "history": [RUNS[h]["name"] for h in list(seen.values())[-1]]})
     finally:
@@ -274,7 +325,7 @@ def run(prop, tier):
     agg["evaluations"] = agg["transitions"]
     agg["distinct_nontrivial"] = agg["states"]
     agg["exhaustive"] = all(f["converged"] for f in agg["fixpoint"].values())
-    agg["rule"] = "BFS to fixpoint over run histories for max_retained_runs in %s; alphabet of completing runs: %s; state = actual disk content of <out>/tracking/run.json and <out>/run/** (decoded, timestamps and run times dropped); after every transition: result show == the document that run printed, log show == exactly that run's logs, log show --id <slot> for each retained run, number of run directories <= max" % (maxes, [r["name"] for r in RUNS])
+    agg["rule"] = "BFS to fixpoint over run histories for max_retained_runs in %s (plus, for max 2, a depth-bounded search whose alphabet also contains a run that aborts with a fatal error during execution); alphabet of completing runs: %s; state = actual disk content of <out>/tracking/run.json and <out>/run/** (decoded, timestamps and run times dropped); after every transition: result show == the document that run printed, log show == exactly that run's logs, log show --id <slot> for each retained run, number of run directories <= max" % (maxes, [r["name"] for r in RUNS])
     by = {}
     for v in agg["violations"]:
         by[v["sig"]] = by.get(v["sig"], 0) + 1
@@ -302,7 +353,7 @@ def replay(prop, path):
         ranh = {}
         for i, ri in enumerate(hist):
             r = transition((maxr, store, key, hist[:i], ri, ranh))
-            ranh = {int(k): set(map(tuple, v)) for k, v in r.get("ran", {}).items()}
+            ranh = {k: (set(map(tuple, v)) if isinstance(k, int) else v) for k, v in r.get("ran", {}).items()}
             if "engine_error" in r:
                 print("ENGINE:", r["engine_error"])
                 return 2
